@@ -239,6 +239,52 @@ def class_state_writes(prog, func):
     return out
 
 
+def argument_state_writes(prog, func):
+    """In-place updates of a container that hangs off an *argument* object
+    (``arg.attr[k] = v``, ``m = arg.attr; m[k] = v``, ``arg.attr.append``):
+    [(param, attribute, node)].  The object outlives the call, so what one
+    call leaves there is seen by the next call that gets the same object."""
+    out = []
+    if isinstance(func.node, ast.Lambda):
+        return out
+    params = {p_.lstrip("*") for p_ in func.params} - {"self", "cls"}
+    if not params:
+        return out
+    if not any(isinstance(n, ast.Attribute) and isinstance(
+            n.value, ast.Name) and n.value.id in params
+            for n in walk_own(func.node)):
+        return out
+    try:
+        _du, T, cfg = _analysis(prog, func)
+    except Exception:
+        return out
+    def find(t, seen):
+        if not isinstance(t, tuple) or not t or id(t) in seen or \
+                len(seen) > 200:
+            return None
+        seen.add(id(t))
+        if t[0] == "attr" and isinstance(t[1], tuple) and \
+                t[1][:1] == ("param",) and t[1][1] in params:
+            return (t[1][1], t[2])
+        if t[0] in ("mutsub", "mut", "store", "augstore", "sub", "attr",
+                    "delitem") and len(t) > 1:
+            return find(t[1], seen)
+        if t[0] == "phi":
+            for a in t[1]:
+                r = find(a, seen)
+                if r:
+                    return r
+        if t[0] == "ifexp":
+            return find(t[2], seen) or find(t[3], seen)
+        return None
+
+    for recv, node, _kind in _update_events(func, T, cfg):
+        r = find(recv, set())
+        if r:
+            out.append((r[0], r[1], node))
+    return out
+
+
 def default_is_state(prog, func, pname):
     """Why the mutable default of ``pname`` is cross-call state, or None."""
     try:
@@ -371,6 +417,13 @@ def might_carry_state(prog, func):
         return True
     if func.cls is not None and _class_level_mutables(func.cls):
         return True
+    ps_ = {p_.lstrip("*") for p_ in func.params} - {"self", "cls"}
+    if ps_ and any(isinstance(n, ast.Attribute) and isinstance(
+            n.value, ast.Name) and n.value.id in ps_ and isinstance(
+                n.ctx, ast.Load) for n in walk_own(func.node)) and any(
+            isinstance(n, (ast.Subscript, ast.AugAssign, ast.Call))
+            for n in walk_own(func.node)):
+        return True
     own = _mutable_globals(func.module)
     if not own:
         return False
@@ -399,6 +452,12 @@ def check_no_cross_call_state(ctx, rule, funcs, what):
                 ctx.fail(rule, f, f"@{d}",
                          f"results of {f.name} are cached across calls "
                          f"(@{d}) although {why}", node=f.node)
+        for p_, a_, node in argument_state_writes(prog, f):
+            ctx.fail(rule, f, f"state kept on argument {p_}.{a_}",
+                     f"{f.name} updates '{p_}.{a_}' in place: the object "
+                     f"is the caller's and outlives the call, so a later "
+                     f"{what} that is handed the same object starts from "
+                     "what this one left there", node=node)
         for a_, node in class_state_writes(prog, f):
             ctx.fail(rule, f, f"class-level cache {a_}",
                      f"{f.name} stores into '{a_}', an object created once "
